@@ -7,15 +7,28 @@ condition-2 guard, the three dynamics thresholds against the values captured at 
 timer on every exit while active, start/stop discipline, low-frequency container inclusion and stamping,
 generationDeltaTime derivation; for the VRU service: first-VAM, minimum-interval and clustering gate in front of every
 transmission, low-frequency container rule.
+
+How the clauses are decided (no clause is a comparison of source text):
+  * guards in front of a call / store: the must-facts of the flow analysis at that node, turned into propositional
+    formulas over canonical atoms (sem.atoms; locals expanded, module constants folded) and compared by truth table
+    (`implies`); "exactly when" clauses additionally require that every guard written in the function is implied by
+    the expected condition (no extra guard);
+  * arguments: bound to the PARAMETER of the resolved callee they are passed for (`bind`), positionally or by keyword;
+  * small numeric predicates (_check_dynamics, _should_include_lf, the T_GenCam clamp, the VAM LF rule): their syntax
+    trees are interpreted (absint.MiniExec - the repository code is never run) on representatives of the cells cut out
+    by the thresholds, including the exact boundary values, and compared with the rule of the standard;
+  * stores: located as AST assignments to the attribute, their values compared up to canonical form (sem.same).
 """
 from __future__ import annotations
 
 import ast
-import re
+import copy
+import math
 
+from .. import sem
 from ..prog import AnalysisError, ClassInfo, FuncInfo, dotted, unparse
-from ..match import pretty, int_lower_bound
-from ..absint import to_poly
+from ..absint import MiniExec, to_poly
+from .c04 import f_show, fold_consts, formula, guard_formulas, implies, relevant, valid
 
 PROP = "C10"
 CAM = "facilities.ca_basic_service.cam_transmission_management"
@@ -23,10 +36,9 @@ VAM = "facilities.vru_awareness_service.vam_transmission_management"
 VC = "facilities.vru_awareness_service.vam_constants"
 
 
-def norm(s):
-    return re.sub(r"\s+", "", s)
-
-
+# --------------------------------------------------------------------------------------------
+# helpers
+# --------------------------------------------------------------------------------------------
 def const(ctx, modsuffix, name):
     m = ctx.prog.module(modsuffix)
     if name not in m.consts:
@@ -34,137 +46,604 @@ def const(ctx, modsuffix, name):
     return ctx.prog.try_fold(m, m.consts[name])
 
 
+def expr(src: str) -> ast.AST:
+    return ast.parse(src, mode="eval").body
+
+
+def bind(callee: FuncInfo, call: ast.Call) -> dict:
+    """{parameter name of the callee: argument node} for a call (the receiver `self` is skipped)."""
+    params = callee.params
+    off = 1 if callee.kind in ("method", "classmethod", "property") and params else 0
+    out = {}
+    for i, a in enumerate(call.args):
+        if isinstance(a, ast.Starred):
+            raise AnalysisError(f"C10: starred argument in call of {callee.qual} at line {call.lineno}")
+        if i + off < len(params):
+            out[params[i + off]] = a
+    for kw in call.keywords:
+        if kw.arg is None:
+            raise AnalysisError(f"C10: **kwargs in call of {callee.qual} at line {call.lineno}")
+        out[kw.arg] = kw.value
+    return out
+
+
+def param(fi: FuncInfo, name: str) -> str:
+    a = fi.node.args
+    if name not in [x.arg for x in a.posonlyargs + a.args + a.kwonlyargs]:
+        raise AnalysisError(f"C10: {fi.qual} has no parameter `{name}` any more")
+    return name
+
+
+def calls_to(P, fi: FuncInfo, target: FuncInfo) -> list:
+    return [c for c in P.calls_in(fi)
+            if any(isinstance(t, FuncInfo) and t.qual == target.qual for t in P.call_targets(fi, c, count=False))]
+
+
+def _simp(f):
+    if isinstance(f, bool) or f[0] == "lit":
+        return f
+    if f[0] == "not":
+        x = _simp(f[1])
+        return (not x) if isinstance(x, bool) else ("not", x)
+    xs = [_simp(x) for x in f[1]]
+    unit = f[0] == "and"            # neutral element: True for and, False for or
+    if any(x is (not unit) for x in xs):
+        return not unit
+    xs = [x for x in xs if not isinstance(x, bool)]
+    if not xs:
+        return unit
+    return xs[0] if len(xs) == 1 else (f[0], xs)
+
+
+def completes(ctx, fl, stmts: list):
+    """Condition under which control falls off the end of `stmts` (tests expanded in the state where they are evaluated)."""
+    parts = []
+    for s_ in stmts:
+        if isinstance(s_, (ast.Return, ast.Raise, ast.Break, ast.Continue)):
+            return False
+        if isinstance(s_, ast.If):
+            st = fl.state_at(s_)
+            t = formula(fold_consts(ctx.prog, fl.fi.module, fl.expand(s_.test, st), set(st.defs)))
+            parts.append(("or", [("and", [t, completes(ctx, fl, s_.body)]), ("and", [("not", t), completes(ctx, fl, s_.orelse)])]))
+        elif isinstance(s_, (ast.With, ast.AsyncWith)):
+            parts.append(completes(ctx, fl, s_.body))
+    return _simp(("and", parts))
+
+
+def _touched(fl, stmts: list) -> set:
+    """Names / attribute chains assigned, deleted or mutated through a container method somewhere in `stmts`."""
+    out = set(fl.assigned_names(stmts))
+    for s_ in stmts:
+        for n_ in ast.walk(s_):
+            if isinstance(n_, ast.Call) and isinstance(n_.func, ast.Attribute) and n_.func.attr in fl.MUTATORS and dotted(n_.func.value):
+                out.add(dotted(n_.func.value))
+    return out
+
+
+def join_guards(ctx, fl, node) -> list:
+    """Disjunctive knowledge the must-facts lose where two live paths join: for every `if` statement that lies before
+    `node` in an enclosing statement list, the condition under which that statement is left normally - kept only when
+    nothing it mentions is written between that statement and `node`."""
+    import re as _re
+    from .c04 import f_atoms
+    out = []
+    cur = node if isinstance(node, ast.stmt) else fl.stmt_of.get(id(node))
+    while cur is not None and cur is not fl.fi.node:
+        par = fl.parent.get(id(cur))
+        if par is None:
+            break
+        lst = None
+        for fld in ("body", "orelse", "finalbody"):
+            v = getattr(par, fld, None)
+            if isinstance(v, list) and any(x is cur for x in v):
+                lst = v
+        if lst is not None:
+            k = [i for i, x in enumerate(lst) if x is cur][0]
+            for j in range(k):
+                if not isinstance(lst[j], (ast.If, ast.With, ast.AsyncWith)):
+                    continue
+                c = completes(ctx, fl, [lst[j]])
+                if isinstance(c, bool) or valid(c) is not False:
+                    continue                      # no information (always left normally) or too large to decide
+                touched = _touched(fl, lst[j:k + 1])
+                text = " ".join(sorted(f_atoms(c)))
+                if any((("." in t) and t in text) or (("." not in t) and _re.search(r"(?<![\w.])" + _re.escape(t) + r"(?![\w])", text)) for t in touched):
+                    continue
+                out.append(c)
+        cur = par
+    return out
+
+
+def guards(ctx, fl, node, primary: bool = False) -> list:
+    """Conditions certainly in force at `node`: the must-facts of the flow analysis plus the disjunctive completion
+    conditions of the preceding `if` statements (see join_guards)."""
+    st = fl.state_at(node)
+    out = guard_formulas(ctx.prog, fl, st, set(st.defs), primary)
+    seen = {repr(x) for x in out}
+    for c in join_guards(ctx, fl, node):
+        if repr(c) not in seen:
+            seen.add(repr(c))
+            out.append(c)
+    return out
+
+
+def xfold(ctx, fl, e: ast.AST, st) -> ast.AST:
+    """`e` with locals expanded through the flow and module constants folded."""
+    return fold_consts(ctx.prog, fl.fi.module, fl.expand(e, st), set(st.defs))
+
+
+def no_extra_guard(gs: list, expected: list) -> list:
+    """Guards that do not follow from the expected condition (the conjunction of `expected`)."""
+    return [g for g in gs if implies(expected, g) is not True]
+
+
+def lower_bound(ctx, fl, st, term: ast.AST, field_bounds: dict = None):
+    """Greatest lower bound on `term` among the positive `term >= c` / `term > c` facts (c a folded constant, or an
+    attribute listed in `field_bounds` with the least value it is ever given)."""
+    P, mod = ctx.prog, fl.fi.module
+    want, best = sem.cx(term), None
+    for f in st.facts:
+        if f.kind != "cond" or not f.pol or not isinstance(f.xnode, ast.Compare) or len(f.xnode.ops) != 1:
+            continue
+        op, a, b = f.xnode.ops[0], f.xnode.left, f.xnode.comparators[0]
+        if not isinstance(op, (ast.Gt, ast.GtE)) or sem.cx(a) != want:
+            continue
+        c = P.try_fold(mod, b)
+        if not (isinstance(c, (int, float)) and not isinstance(c, bool)):
+            c = (field_bounds or {}).get(sem.cx(b))
+        if c is None:
+            continue
+        lb = c + (1 if isinstance(op, ast.Gt) and isinstance(c, int) else 0)
+        best = lb if best is None else max(best, lb)
+    return best
+
+
+def stores(cls: ClassInfo, attr: str) -> list:
+    """[(method, assignment node, value node)] for every `self.<attr> = v` / annotated store in the class."""
+    out = []
+    for m in cls.methods.values():
+        for n in ast.walk(m.node):
+            if isinstance(n, ast.Assign):
+                for t in n.targets:
+                    if dotted(t) == f"self.{attr}":
+                        out.append((m, n, n.value))
+                    elif isinstance(t, (ast.Tuple, ast.List)):
+                        for k, e in enumerate(t.elts):
+                            if dotted(e) == f"self.{attr}":
+                                same = isinstance(n.value, (ast.Tuple, ast.List)) and len(n.value.elts) == len(t.elts)
+                                out.append((m, n, n.value.elts[k] if same else None))
+            elif isinstance(n, ast.AnnAssign) and n.value is not None and dotted(n.target) == f"self.{attr}":
+                out.append((m, n, n.value))
+            elif isinstance(n, ast.AugAssign) and dotted(n.target) == f"self.{attr}":
+                out.append((m, n, None))
+    return out
+
+
+def is_none(e) -> bool:
+    return isinstance(e, ast.Constant) and e.value is None
+
+
+def sub_key(node: ast.AST):
+    """Constant string key of the outermost subscript of an assignment target (`x[...]["k"]`), else None."""
+    if isinstance(node, ast.Subscript) and isinstance(node.slice, ast.Constant) and isinstance(node.slice.value, str):
+        return node.slice.value
+    return None
+
+
+class Exec(MiniExec):
+    """MiniExec plus: membership / identity tests, dict.get, functions of `math`, pure module-level helpers of the
+    repository (interpreted recursively) and a fixed reading for a wall-clock call."""
+
+    def __init__(self, prog, fi, env, clock=None):
+        super().__init__(prog, fi, env)
+        self.clock = clock
+
+    def ev(self, e):
+        if isinstance(e, ast.Compare) and any(isinstance(o, (ast.In, ast.NotIn, ast.Is, ast.IsNot)) for o in e.ops):
+            left = self.ev(e.left)
+            for op, c in zip(e.ops, e.comparators):
+                right = self.ev(c)
+                if isinstance(op, ast.In):
+                    ok = left in right
+                elif isinstance(op, ast.NotIn):
+                    ok = left not in right
+                elif isinstance(op, ast.Is):
+                    ok = left is right
+                elif isinstance(op, ast.IsNot):
+                    ok = left is not right
+                else:
+                    ok = self.ev(ast.Compare(left=ast.Constant(left), ops=[op], comparators=[ast.Constant(right)]))
+                if not ok:
+                    return False
+                left = right
+            return True
+        return super().ev(e)
+
+    def _call(self, me, call):
+        f = call.func
+        d = dotted(f)
+        args = lambda: [self.ev(a) for a in call.args]
+        imps = self.fi.module.imports
+        if d and imps.get(d, (None,))[0] == "attr" and imps[d][1] == "math" and hasattr(math, imps[d][2]):
+            return getattr(math, imps[d][2])(*args())
+        if d and "." in d and imps.get(d.split(".")[0]) == ("mod", "math") and hasattr(math, d.split(".")[1]):
+            return getattr(math, d.split(".")[1])(*args())
+        if self.clock is not None and isinstance(f, ast.Attribute) and f.attr == "time" and not call.args and not call.keywords \
+                and dotted(f.value) is not None and dotted(f.value) not in self.env:
+            return self.clock
+        if isinstance(f, ast.Attribute) and f.attr == "get" and 1 <= len(call.args) <= 2:
+            try:
+                obj = self.ev(f.value)
+            except AnalysisError:
+                obj = None
+            if isinstance(obj, dict):
+                return obj.get(*args())
+        tg = [t for t in self.prog.call_targets(self.fi, call, count=False)]
+        if len(tg) == 1 and isinstance(tg[0], FuncInfo) and tg[0].kind in ("function", "staticmethod"):
+            callee = tg[0]
+            env = dict(zip(callee.params, args()))
+            for kw in call.keywords:
+                env[kw.arg] = self.ev(kw.value)
+            sub = Exec(self.prog, callee, env, self.clock)
+            return sub.run()
+        return super()._call(me, call)
+
+
+def haversine_m(lat1, lon1, lat2, lon2) -> float:
+    r = 6_371_000.0
+    a = math.sin(math.radians(lat2 - lat1) / 2) ** 2 + math.cos(math.radians(lat1)) * math.cos(math.radians(lat2)) * \
+        math.sin(math.radians(lon2 - lon1) / 2) ** 2
+    return r * 2 * math.atan2(math.sqrt(a), math.sqrt(max(0.0, 1.0 - a)))
+
+
+# --------------------------------------------------------------------------------------------
+# CA basic service
+# --------------------------------------------------------------------------------------------
 def cam(ctx):
     P = ctx.prog
     tm = P.cls(f"{CAM}.CAMTransmissionManagement")
+    mod = tm.module
     tmin, tmax, tdcc, tcheck = (const(ctx, CAM, n) for n in ("T_GEN_CAM_MIN", "T_GEN_CAM_MAX", "T_GEN_CAM_DCC", "T_CHECK_CAM_GEN"))
     ctx.ob("C10.cam-constants", f"{CAM}", "T_GenCamMin/Max", tmin == 100 and tmax == 1000, f"T_GenCamMin={tmin} ms, T_GenCamMax={tmax} ms (EN 302 637-2: 100 / 1000)", "")
     ctx.ob("C10.cam-constants", f"{CAM}", "T_GenCam_DCC", isinstance(tdcc, int) and tmin <= tdcc <= tmax, f"T_GenCam_DCC={tdcc} within [min, max]", "")
     ctx.ob("C10.cam-constants", f"{CAM}", "T_CheckCamGen", isinstance(tcheck, int) and 0 < tcheck <= tmin, f"T_CheckCamGen={tcheck} <= T_GenCamMin", "")
+    if not all(isinstance(x, int) for x in (tmin, tmax, tdcc, tcheck)):
+        raise AnalysisError("C10: a CAM timing constant no longer folds to an integer")
     ev = tm.methods["_evaluate_and_maybe_send"]
+    g = tm.methods["_generate_and_send_cam"]
+    us = tm.methods["_update_send_state"]
+    cd = tm.methods["_check_dynamics"]
+    g_tpv, g_now, g_cond = param(g, "tpv"), param(g, "now_ms"), param(g, "condition")
     fl = ctx.flows.get(ev)
-    gens = [c for c in P.calls_in(ev) if isinstance(c.func, ast.Attribute) and c.func.attr == "_generate_and_send_cam"]
+    gens = calls_to(P, ev, g)
     if len(gens) < 3:
         raise AnalysisError(f"C10: {len(gens)} CAM generation sites (confirmed: 3)")
     # every generation site in the class
-    all_gens = [(m, c) for m in tm.methods.values() for c in P.calls_in(m) if isinstance(c.func, ast.Attribute) and c.func.attr == "_generate_and_send_cam"]
+    all_gens = [(m, c) for m in tm.methods.values() for c in calls_to(P, m, g)]
     ctx.ob("C10.cam-min", tm.qual[10:], "single-decision-point", all(m is ev for m, _ in all_gens),
            f"CAMs are generated only from _evaluate_and_maybe_send ({sorted({m.name for m, _ in all_gens})})", ev.loc)
+    LAST = "self._last_cam_time_ms"
+    first_f = formula(expr(f"{LAST} is None"))
+    active_f = formula(expr("self._active"))
+    snapshot_defs = []
     for i, c in enumerate(gens):
         st = fl.state_at(c)
-        conds = {norm(pretty(f.xkey)): f.pol for f in st.facts if f.kind == "cond"}
-        first = conds.get("self._last_cam_time_msisNone") is True
-        dcc = conds.get("int(TimeService.time()*1000)-self._last_cam_time_ms>=T_GEN_CAM_DCC") is True
-        cond = norm(unparse([kw.value for kw in c.keywords if kw.arg == "condition"][0])) if c.keywords else "?"
+        loc = f"{ev.module.rel}:{c.lineno}"
+        b = bind(g, c)
+        if not all(k in b for k in (g_tpv, g_now, g_cond)):
+            raise AnalysisError(f"C10: generation call at line {c.lineno} does not pass tpv / now_ms / condition")
+        now_x, tpv_x = xfold(ctx, fl, b[g_now], st), xfold(ctx, fl, b[g_tpv], st)
+        elapsed = ast.BinOp(left=now_x, op=ast.Sub(), right=expr(LAST))
+        gs = guards(ctx, fl, c)
+        first = implies(relevant(gs, first_f), first_f) is True
+        lb = lower_bound(ctx, fl, st, elapsed)
+        dcc = lb is not None and lb >= tdcc
         ctx.ob("C10.cam-min", ev.short(), f"gen#{i}:min-interval", first or dcc,
                "first CAM after start" if first else ("generation only when now - last_CAM >= T_GenCam_DCC (>= 100 ms)" if dcc else
-                                                      "a CAM can be generated less than T_GenCamMin after the previous one"), f"{ev.module.rel}:{c.lineno}")
-        if cond == "1" and not first:
-            ctx.ob("C10.cam-triggers", ev.short(), f"gen#{i}:dynamics", any(v and re.fullmatch(r"self\._check_dynamics\(.*\)", k) for k, v in conds.items()),
-                   "condition-1 CAM requires the dynamics trigger", f"{ev.module.rel}:{c.lineno}")
-        if cond == "2":
-            ok = conds.get("int(TimeService.time()*1000)-self._last_cam_time_ms>=self.t_gen_cam") is True
-            ctx.ob("C10.cam-max", ev.short(), f"gen#{i}:condition-2", ok,
-                   "condition-2 CAM as soon as now - last_CAM >= T_GenCam" if ok else "the T_GenCam expiry no longer triggers a CAM", f"{ev.module.rel}:{c.lineno}")
-        tp = norm(pretty(unparse(fl.expand(c.args[0], st))))
-        ctx.ob("C10.gdt", ev.short(), f"gen#{i}:latest-report", tp == "self._current_tpv", f"the CAM is built from `{tp}` (the latest report, read once)", f"{ev.module.rel}:{c.lineno}")
-    # the report snapshot is read under the lock
-    snap = [n for n in ast.walk(ev.node) if isinstance(n, ast.Assign) and dotted(n.targets[0]) == "tpv"]
-    ok = len(snap) == 1 and "CAMTransmissionManagement._tpv_lock" in fl.state_at(snap[0]).locks
+                                                      "a CAM can be generated less than T_GenCamMin after the previous one"), loc)
+        ctx.ob("C10.cam-min", ev.short(), f"gen#{i}:clock", sem.same(now_x, "int(TimeService.time() * 1000)"),
+               f"the generation time handed to the CAM is `{sem.cx(now_x)}` (the time service clock in ms; elapsed time is measured on it)", loc)
+        # "exactly when": every test written in front of the generation must follow from the condition of the standard
+        cond = P.try_fold(mod, b[g_cond])
+        dyn_f = formula(ast.Call(func=expr("self._check_dynamics"), args=[copy.deepcopy(tpv_x)], keywords=[]))
+        have_report = formula(ast.Compare(left=copy.deepcopy(tpv_x), ops=[ast.IsNot()], comparators=[ast.Constant(None)]))
+        tgen_f = formula(ast.Compare(left=copy.deepcopy(elapsed), ops=[ast.GtE()], comparators=[expr("self.t_gen_cam")]))
+        dcc_f = formula(ast.Compare(left=copy.deepcopy(elapsed), ops=[ast.GtE()], comparators=[ast.Constant(tdcc)]))
+        base = [have_report, active_f]
+        if first:
+            expected = base + [first_f]
+        elif cond == 1:
+            expected = base + [("not", first_f), dcc_f, dyn_f]
+        else:
+            expected = base + [("not", first_f), dcc_f, ("not", dyn_f), tgen_f]
+        extra = no_extra_guard(guards(ctx, fl, c, primary=True), expected)
+        why_extra = "" if not extra else " - but the generation additionally depends on: " + "; ".join(f_show(x) for x in extra[:3])
+        if first:
+            ctx.ob("C10.cam-min", ev.short(), f"gen#{i}:first-unconditional", not extra,
+                   "the first CAM after activation is generated as soon as a position report is available" + why_extra, loc)
+        if cond == 1 and not first:
+            ok = implies(relevant(gs, dyn_f), dyn_f) is True
+            ctx.ob("C10.cam-triggers", ev.short(), f"gen#{i}:dynamics", ok and not extra,
+                   ("condition-1 CAM exactly on the dynamics trigger (once T_GenCam_DCC elapsed)" if ok else "condition-1 CAM requires the dynamics trigger")
+                   + why_extra, loc)
+        if cond == 2:
+            ok = implies(relevant(gs, tgen_f), tgen_f) is True
+            ctx.ob("C10.cam-max", ev.short(), f"gen#{i}:condition-2", ok and not extra,
+                   ("condition-2 CAM as soon as now - last_CAM >= T_GenCam" if ok else "the T_GenCam expiry no longer triggers a CAM") + why_extra, loc)
+        if cond not in (1, 2):
+            ctx.ob("C10.cam-max", ev.short(), f"gen#{i}:condition", False, f"generation with condition `{unparse(b[g_cond])}` (1 or 2 expected)", loc)
+        ctx.ob("C10.gdt", ev.short(), f"gen#{i}:latest-report", sem.same(tpv_x, "self._current_tpv"),
+               f"the CAM is built from `{sem.cx(tpv_x)}` (the latest report, read once)", loc)
+        if isinstance(b[g_tpv], ast.Name):
+            snapshot_defs.append(tuple(d.did for d in fl.reaching(b[g_tpv].id, st)))
+        else:
+            snapshot_defs.append(None)
+    # the report snapshot is read once, under the lock
+    ok = len(set(snapshot_defs)) == 1 and snapshot_defs[0] is not None and len(snapshot_defs[0]) == 1
+    if ok:
+        d = fl.defs[snapshot_defs[0][0]]
+        ok = isinstance(d.stmt, ast.Assign) and "CAMTransmissionManagement._tpv_lock" in fl.state_at(d.stmt).locks
     ctx.ob("C10.gdt", ev.short(), "snapshot-under-lock", ok, "the position report is snapshotted once under _tpv_lock", ev.loc)
-    # ---- T_GenCam stores are clamped
-    us = tm.methods["_update_send_state"]
+
+    # ---- T_GenCam stores are clamped: interpreted on representatives of [.., T_GenCamMin, .., T_GenCamMax, ..]
+    flu = ctx.flows.get(us)
+    us_calls = calls_to(P, g, us)
+    if len(us_calls) != 1:
+        raise AnalysisError(f"C10: {len(us_calls)} calls of _update_send_state in _generate_and_send_cam (confirmed: 1)")
+    flg = ctx.flows.get(g)
+    bu = bind(us, us_calls[0])
+    stg = flg.state_at(us_calls[0])
+
+    def us_param_bound_to(pred) -> list:
+        return [p_ for p_, a in bu.items() if pred(flg.expand(a, stg))]
     n = 0
-    for m in tm.methods.values():
-        for node in ast.walk(m.node):
-            if isinstance(node, (ast.Assign, ast.AnnAssign)) and dotted(node.targets[0] if isinstance(node, ast.Assign) else node.target) == "self.t_gen_cam":
-                n += 1
-                v = node.value
-                c = P.try_fold(m.module, v)
-                txt = norm(unparse(v))
-                ok = (isinstance(c, int) and tmin <= c <= tmax) or txt in ("max(T_GEN_CAM_MIN,min(T_GEN_CAM_MAX,elapsed_ms))", "min(T_GEN_CAM_MAX,max(T_GEN_CAM_MIN,elapsed_ms))")
-                ctx.ob("C10.cam-max", m.short(), f"t_gen_cam-store#{n}", ok,
-                       f"T_GenCam := `{unparse(v)}` " + ("within [T_GenCamMin, T_GenCamMax]" if ok else "is not clamped into [T_GenCamMin, T_GenCamMax]"),
-                       f"{m.module.rel}:{node.lineno}")
-    ctx.floor("C10.cam-max", 5)
-    # ---- dynamics thresholds
-    cd = tm.methods["_check_dynamics"]
-    fl = ctx.flows.get(cd)
-    found = {}
-    for k, s, st in fl.exits:
-        if k == "return" and P.try_fold(cd.module, s.value) is True:
-            conds = {norm(pretty(f.xkey)): f.pol for f in st.facts if f.kind == "cond"}
-            keys = [kk for kk, vv in conds.items() if vv]
-            if any(kk == "self._last_cam_headingisNone" for kk in keys):
-                found["no-reference"] = True
-            for kk in keys:
-                if re.fullmatch(r"(diff|abs\(tpv\['track'\]-self\._last_cam_heading\))>4(\.0)?", kk):
-                    found["heading"] = kk
-                if kk.startswith("_haversine_m(self._last_cam_lat,self._last_cam_lon,tpv['lat'],tpv['lon'])>4"):
-                    found["position"] = kk
-                if re.fullmatch(r"abs\(tpv\['speed'\]-self\._last_cam_speed\)>0\.5", kk):
-                    found["speed"] = kk
-    for t in ("heading", "position", "speed"):
-        ctx.ob("C10.cam-triggers", cd.short(), t, t in found,
-               f"{t} trigger: `{found.get(t, '')[:80]}`" if t in found else f"the {t} trigger (4 deg / 4 m / 0.5 m/s against the last CAM) is missing or changed", cd.loc)
-    src = norm(unparse(cd.node))
-    ctx.ob("C10.cam-triggers", cd.short(), "heading-wrap", "ifdiff>180.0:diff=360.0-diff" in src and "diff=abs(tpv['track']-self._last_cam_heading)" in src,
-           "heading difference folded across the 0/360 wrap", cd.loc)
-    src = norm(unparse(us.node))
-    for fld, key in (("_last_cam_heading", "track"), ("_last_cam_lat", "lat"), ("_last_cam_lon", "lon"), ("_last_cam_speed", "speed")):
-        ctx.ob("C10.cam-triggers", us.short(), f"reference:{fld}", f"self.{fld}=tpv['{key}']" in src,
-               f"reference value {fld} := the report's '{key}' of the CAM just sent", us.loc)
-    ctx.ob("C10.cam-min", us.short(), "last-cam-time", "self._last_cam_time_ms=now_ms" in src, "last CAM time := the generation time", us.loc)
+    reps = sorted({0, 1, tmin - 1, tmin, tmin + 1, (tmin + tmax) // 2, tmax - 1, tmax, tmax + 1, 10 * tmax})
+    for m, node, v in stores(tm, "t_gen_cam"):
+        n += 1
+        c = P.try_fold(m.module, v) if v is not None else None
+        if isinstance(c, int):
+            ok, how = tmin <= c <= tmax, "within [T_GenCamMin, T_GenCamMax]"
+        else:
+            free = sorted({x.id for x in ast.walk(v) if isinstance(x, ast.Name) and x.id in m.params}) if v is not None else []
+            ok, how = False, "is not clamped into [T_GenCamMin, T_GenCamMax]"
+            if len(free) == 1:
+                try:
+                    got = [Exec(P, m, {free[0]: x}).ev(v) for x in reps]
+                    ok = got == [min(max(x, tmin), tmax) for x in reps]
+                except AnalysisError as e:
+                    how = f"cannot be evaluated ({e})"
+                # the clamped quantity is the time elapsed since the last CAM
+                if ok and m is us:
+                    a = flg.expand(bu[free[0]], stg) if free[0] in bu else None
+                    diff = sem.cx(ast.BinOp(left=ast.Name(id=g_now, ctx=ast.Load()), op=ast.Sub(), right=expr(LAST)))
+                    cands = [a.body] if isinstance(a, ast.IfExp) else [a]
+                    ok = a is not None and any(x is not None and sem.cx(x) == diff for x in cands)
+                    if isinstance(a, ast.IfExp):
+                        ok = ok and valid(("or", [("not", formula(a.test)), ("not", first_f)])) is True
+                    how = "= the elapsed time clamped into [T_GenCamMin, T_GenCamMax]" if ok else \
+                        f"clamps `{sem.cx(a) if a is not None else '?'}`, which is not the time since the last CAM"
+                elif ok:
+                    how = "clamped into [T_GenCamMin, T_GenCamMax]"
+        ctx.ob("C10.cam-max", m.short(), f"t_gen_cam-store#{n}", ok, f"T_GenCam := `{unparse(v) if v is not None else 'augmented'}` " + how,
+               f"{m.module.rel}:{node.lineno}")
+    ctx.floor("C10.cam-max", 6)
+
+    # ---- dynamics thresholds: _check_dynamics interpreted on representatives (boundary values included)
+    LAT, LON, SPD = 41.0, 2.0, 10.0
+    MLAT = 1.0 / 111194.92664455874           # degrees of latitude per metre on the sphere used (R = 6 371 000 m)
+    MLON = MLAT / math.cos(math.radians(LAT))
+
+    def spec(tpv, h, lat, lon, spd):
+        if h is None:
+            return True
+        if "track" in tpv:
+            d = abs(tpv["track"] - h) % 360.0
+            if min(d, 360.0 - d) > 4.0:
+                return True
+        if "lat" in tpv and "lon" in tpv and lat is not None and lon is not None and haversine_m(lat, lon, tpv["lat"], tpv["lon"]) > 4.0:
+            return True
+        return "speed" in tpv and spd is not None and abs(tpv["speed"] - spd) > 0.5
+
+    def run_cd(tpv, h, lat, lon, spd):
+        env = {param(cd, "tpv"): tpv, "self._last_cam_heading": h, "self._last_cam_lat": lat, "self._last_cam_lon": lon,
+               "self._last_cam_speed": spd}
+        return bool(Exec(P, cd, env).run())
+    quiet = {"lat": LAT, "lon": LON, "speed": SPD}
+    families = {"heading": [], "heading-wrap": [], "position": [], "speed": []}
+    for h, t in [(100.0, x) for x in (100.0, 103.0, 104.0, 104.5, 97.0, 96.0, 95.5, 200.0, 279.5, 280.0, 0.5, 60.0)] + \
+                [(0.0, 3.5), (0.0, 4.0), (0.0, 4.5), (4.5, 0.0), (180.0, 0.0), (0.0, 180.0)]:
+        families["heading"].append(({**quiet, "track": t}, h, LAT, LON, SPD))
+    families["heading"].append(({**quiet, "track": 50.0}, None, None, None, None))          # no reference yet
+    families["heading"].append((dict(quiet), 100.0, LAT, LON, SPD))                        # report without heading
+    for h, t in [(358.0, 3.0), (3.0, 358.0), (359.5, 2.0), (2.0, 359.5), (356.0, 0.0), (0.0, 356.0), (355.5, 0.0), (0.0, 355.5),
+                 (10.0, 350.0), (350.0, 10.0), (0.0, 181.0), (181.0, 0.0), (1.0, 359.0), (90.0, 300.0), (300.0, 90.0)]:
+        families["heading-wrap"].append(({**quiet, "track": t}, h, LAT, LON, SPD))
+    for dm_lat, dm_lon in [(0.0, 0.0), (3.5, 0.0), (-3.5, 0.0), (4.5, 0.0), (-4.5, 0.0), (0.0, 3.5), (0.0, -3.5), (0.0, 4.5), (0.0, -4.5),
+                           (3.0, 3.0), (2.5, 2.5), (100.0, 0.0)]:
+        families["position"].append(({"track": 100.0, "speed": SPD, "lat": LAT + dm_lat * MLAT, "lon": LON + dm_lon * MLON}, 100.0, LAT, LON, SPD))
+    families["position"].append(({"track": 100.0, "speed": SPD, "lat": LAT + 50 * MLAT, "lon": LON}, 100.0, None, None, SPD))
+    families["position"].append(({"track": 100.0, "speed": SPD, "lat": LAT + 50 * MLAT}, 100.0, LAT, LON, SPD))
+    for v in (10.0, 10.25, 10.5, 10.75, 9.75, 9.5, 9.25, 0.0, 30.0):
+        families["speed"].append(({"track": 100.0, "lat": LAT, "lon": LON, "speed": v}, 100.0, LAT, LON, SPD))
+    families["speed"].append(({"track": 100.0, "lat": LAT, "lon": LON, "speed": 20.0}, 100.0, LAT, LON, None))
+    families["speed"].append(({"track": 100.0, "lat": LAT, "lon": LON}, 100.0, LAT, LON, SPD))
+    what = {"heading": "heading trigger: |heading - heading of the last CAM| > 4 deg",
+            "heading-wrap": "heading difference folded across the 0/360 wrap",
+            "position": "position trigger: distance to the position of the last CAM > 4 m",
+            "speed": "speed trigger: |speed - speed of the last CAM| > 0.5 m/s"}
+    for fam in ("heading", "position", "speed", "heading-wrap"):
+        bad = []
+        for case in families[fam]:
+            got, want_ = run_cd(*case), spec(*case)
+            if got != want_:
+                bad.append(f"report {case[0]} against last CAM (heading {case[1]}, position {case[2]},{case[3]}, speed {case[4]}): "
+                           f"trigger is {got}, the standard says {want_}")
+        ctx.ob("C10.cam-triggers", cd.short(), fam, not bad,
+               what[fam] + (f" - holds on {len(families[fam])} representative reports (boundaries included)" if not bad else " - VIOLATED: " + bad[0]), cd.loc)
+
+    # ---- reference values of the last CAM: stored from the report just sent, under no other condition than its presence
+    us_tpv = us_param_bound_to(lambda a: isinstance(a, ast.Name) and a.id == g_tpv)
+    us_now = us_param_bound_to(lambda a: isinstance(a, ast.Name) and a.id == g_now)
+    if not us_tpv or not us_now:
+        raise AnalysisError("C10: _update_send_state is no longer handed the report and the generation time of the CAM just sent")
+
+    def is_param(e, names) -> bool:
+        return isinstance(e, ast.Name) and e.id in names
+    for fld, key, together in (("_last_cam_heading", "track", ("track",)), ("_last_cam_lat", "lat", ("lat", "lon")),
+                               ("_last_cam_lon", "lon", ("lat", "lon")), ("_last_cam_speed", "speed", ("speed",))):
+        ss = [(m, node, v) for m, node, v in stores(tm, fld) if not is_none(v)]
+        val = flu.expand(ss[0][2], flu.state_at(ss[0][1])) if len(ss) == 1 and ss[0][2] is not None else None
+        ok = len(ss) == 1 and ss[0][0] is us and isinstance(val, ast.Subscript) and is_param(val.value, us_tpv) and \
+            isinstance(val.slice, ast.Constant) and val.slice.value == key
+        why = ""
+        if ok:
+            expected = [formula(expr(f"'{k}' in {val.value.id}")) for k in together]
+            extra = no_extra_guard(guards(ctx, flu, ss[0][1], primary=True), expected)
+            ok = not extra
+            why = "" if ok else " - but only when " + "; ".join(f_show(x) for x in extra[:3])
+        ctx.ob("C10.cam-triggers", us.short(), f"reference:{fld}", ok,
+               f"reference value {fld} := the report's '{key}' of the CAM just sent" + why, us.loc)
+    ss = [(m, node, v) for m, node, v in stores(tm, "_last_cam_time_ms") if not is_none(v)]
+    ok = len(ss) == 1 and ss[0][0] is us and ss[0][2] is not None and is_param(flu.expand(ss[0][2], flu.state_at(ss[0][1])), us_now) \
+        and not guards(ctx, flu, ss[0][1], primary=True)
+    ctx.ob("C10.cam-min", us.short(), "last-cam-time", ok, "last CAM time := the generation time, on every successful transmission", us.loc)
+
     # ---- re-arming and activity
     cc = tm.methods["_check_cam_conditions"]
-    tries = [n for n in ast.walk(cc.node) if isinstance(n, ast.Try)]
-    ok = bool(tries) and any(isinstance(x, ast.Expr) and "self._schedule_next_check()" in unparse(x) for t in tries for x in t.finalbody) and \
-        any("_evaluate_and_maybe_send" in unparse(x) for t in tries for x in t.body)
-    ctx.ob("C10.cam-rearm", cc.short(), "finally", ok, "the next check is scheduled in a finally block: an exception in one evaluation cannot stop the timer chain", cc.loc)
-    fl = ctx.flows.get(cc)
-    for c in P.calls_in(cc):
-        if isinstance(c.func, ast.Attribute) and c.func.attr == "_evaluate_and_maybe_send":
-            conds = {norm(pretty(f.xkey)): f.pol for f in fl.state_at(c).facts if f.kind == "cond"}
-            ctx.ob("C10.cam-active", cc.short(), "evaluate-only-active", conds.get("self._active") is True, "conditions are evaluated only while the service is active", f"{cc.module.rel}:{c.lineno}")
     sn = tm.methods["_schedule_next_check"]
-    fl = ctx.flows.get(sn)
-    for c in P.calls_in(sn):
-        if (dotted(c.func) or "").endswith("Timer"):
-            conds = {norm(pretty(f.xkey)): f.pol for f in fl.state_at(c).facts if f.kind == "cond"}
-            ctx.ob("C10.cam-active", sn.short(), "arm-only-active", conds.get("self._active") is True, "a timer is armed only while active", f"{sn.module.rel}:{c.lineno}")
-            args = norm(unparse(c.args[1])) if len(c.args) > 1 else ""
-            ctx.ob("C10.cam-rearm", sn.short(), "target", args == "self._check_cam_conditions", f"timer target `{args}`", f"{sn.module.rel}:{c.lineno}")
-    ctx.ob("C10.cam-rearm", sn.short(), "period", "delay_s=T_CHECK_CAM_GEN/1000.0" in norm(unparse(sn.node)), "default period T_CheckCamGen", sn.loc)
+    flc = ctx.flows.get(cc)
+    evals = calls_to(P, cc, ev)
+    ok = bool(evals)
+    for c in evals:
+        tries = [t for t, part in flc.enclosing_handlers(c) if part == "body" and t.finalbody]
+        ok = ok and any(isinstance(x, ast.Expr) and isinstance(x.value, ast.Call) and x.value in calls_to(P, cc, sn)
+                        for t in tries for x in t.finalbody)
+    ctx.ob("C10.cam-rearm", cc.short(), "finally", ok, "the next check is scheduled in a finally block: an exception in one evaluation cannot stop the timer chain", cc.loc)
+    for c in evals:
+        gs = guards(ctx, flc, c)
+        ctx.ob("C10.cam-active", cc.short(), "evaluate-only-active", implies(relevant(gs, active_f), active_f) is True,
+               "conditions are evaluated only while the service is active", f"{cc.module.rel}:{c.lineno}")
+    fls = ctx.flows.get(sn)
+    timers = [c for c in P.calls_in(sn) if P.call_targets(sn, c, count=False) == ["ext:threading.Timer"]]
+    if not timers:
+        raise AnalysisError("C10: _schedule_next_check no longer creates a threading.Timer")
+    sn_delay = None
+    for c in timers:
+        gs = guards(ctx, fls, c)
+        ctx.ob("C10.cam-active", sn.short(), "arm-only-active", implies(relevant(gs, active_f), active_f) is True,
+               "a timer is armed only while active", f"{sn.module.rel}:{c.lineno}")
+        kw = {k.arg: k.value for k in c.keywords}
+        fn = c.args[1] if len(c.args) > 1 else kw.get("function")
+        iv = c.args[0] if c.args else kw.get("interval")
+        ok = isinstance(fn, ast.Attribute) and dotted(fn.value) == "self" and tm.find_method(fn.attr) is cc
+        ctx.ob("C10.cam-rearm", sn.short(), "target", ok, f"timer target `{unparse(fn) if fn is not None else '?'}`", f"{sn.module.rel}:{c.lineno}")
+        # period: T_CheckCamGen unless the caller asks for a (shorter) first delay
+        alts = fls.alternatives(iv, fls.state_at(c)) if iv is not None else []
+        ok, passthrough = bool(alts), []
+        for a in alts:
+            v = P.try_fold(sn.module, a)
+            if isinstance(v, (int, float)) and abs(v - tcheck / 1000.0) < 1e-12:
+                continue
+            if isinstance(a, ast.Name) and a.id in sn.params:
+                passthrough.append(a.id)
+                continue
+            ok = False
+        sn_delay = passthrough
+        for m in tm.methods.values():
+            for c2 in calls_to(P, m, sn):
+                b2 = bind(sn, c2)
+                for p_ in passthrough:
+                    a = b2.get(p_)
+                    if a is None or is_none(a):
+                        continue
+                    a = ctx.flows.get(m).expand(a, ctx.flows.get(m).state_at(c2))
+                    lohi = [P.try_fold(m.module, x) for x in a.args] if isinstance(a, ast.Call) and len(a.args) == 2 and \
+                        P.call_targets(m, a, count=False) == ["ext:random.uniform"] else None
+                    if not (lohi and all(isinstance(x, (int, float)) for x in lohi) and 0 <= lohi[0] <= lohi[1] <= tcheck / 1000.0 + 1e-12):
+                        ok = False
+        defaults = {a.arg: d for a, d in zip(reversed(sn.node.args.args), reversed(sn.node.args.defaults))}
+        ok = ok and all(is_none(defaults.get(p_)) for p_ in passthrough)
+        ctx.ob("C10.cam-rearm", sn.short(), "period", ok, "checks are T_CheckCamGen apart (the first one after a random part of it)", sn.loc)
     stp = tm.methods["stop"]
-    src = norm(unparse(stp.node))
-    ctx.ob("C10.cam-active", stp.short(), "stop", "self._active=False" in src and "self._timer.cancel()" in src, "stop clears _active and cancels the timer", stp.loc)
+    flp = ctx.flows.get(stp)
+    ss = [(node, v) for m, node, v in stores(tm, "_active") if m is stp]
+    cancels = [c for c in P.calls_in(stp) if isinstance(c.func, ast.Attribute) and c.func.attr == "cancel" and dotted(c.func.value) == "self._timer"]
+    timer_set = formula(expr("self._timer is not None"))
+    ok = len(ss) == 1 and P.try_fold(stp.module, ss[0][1]) is False and not guards(ctx, flp, ss[0][0], primary=True) and bool(cancels) and \
+        all(not no_extra_guard(guards(ctx, flp, c, primary=True), [timer_set]) for c in cancels)
+    ctx.ob("C10.cam-active", stp.short(), "stop", ok, "stop clears _active and cancels the timer", stp.loc)
     sta = tm.methods["start"]
-    src = norm(unparse(sta.node))
-    ok = all(x in src for x in ("self._active=True", "self._cam_count=0", "self._last_cam_time_ms=None", "self._last_lf_time_ms=None", "self.t_gen_cam=T_GEN_CAM_MAX"))
-    ctx.ob("C10.cam-active", sta.short(), "start-resets", ok, "start resets the per-run state (first CAM, LF timer, T_GenCam)", sta.loc)
+    fla = ctx.flows.get(sta)
+    wanted = {"_active": True, "_cam_count": 0, "_last_cam_time_ms": None, "_last_lf_time_ms": None, "t_gen_cam": tmax}
+    activating = [st for k, s, st in fla.exits if k in ("return", "fall") and "self._active" in st.defs]
+    missing = []
+    for st in activating:
+        for attr, val in wanted.items():
+            ds = fla.reaching(f"self.{attr}", st)
+            v = ds[0].value if len(ds) == 1 and ds[0].kind == "assign" else None
+            got = P.try_fold(sta.module, v, default="<?>") if v is not None else "<?>"
+            if not (got == val and type(got) is type(val)):
+                missing.append(attr)
+    ctx.ob("C10.cam-active", sta.short(), "start-resets", bool(activating) and not missing,
+           "start resets the per-run state (first CAM, LF timer, T_GenCam)" + ("" if not missing else f" - not reset on activation: {sorted(set(missing))}"), sta.loc)
+
     # ---- LF container
     lf = tm.methods["_should_include_lf"]
-    src = norm(unparse(lf.node))
-    ok = "ifself._cam_count==0:returnTrue" in src and "ifself._last_lf_time_msisNone:returnTrue" in src and \
-        "returnnow_ms-self._last_lf_time_ms>=T_GEN_CAM_LF_MS" in src and const(ctx, CAM, "T_GEN_CAM_LF_MS") == 500
-    ctx.ob("C10.cam-lf", lf.short(), "rule", ok, "LF container in the first CAM and whenever >= 500 ms passed since the last CAM carrying it", lf.loc)
-    g = tm.methods["_generate_and_send_cam"]
-    fl = ctx.flows.get(g)
-    for node in ast.walk(g.node):
-        if isinstance(node, ast.Assign) and "lowFrequencyContainer" in unparse(node.targets[0]):
-            conds = {norm(pretty(f.xkey)): f.pol for f in fl.state_at(node).facts if f.kind == "cond"}
-            ctx.ob("C10.cam-lf", g.short(), "attached-iff-due", conds.get("self._should_include_lf(now_ms)") is True,
-                   "the LF container is attached exactly when due", f"{g.module.rel}:{node.lineno}")
-    src = norm(unparse(us.node))
-    ctx.ob("C10.cam-lf", us.short(), "stamp-iff-included", "ifinclude_lf:self._last_lf_time_ms=now_ms" in src, "LF timer restarted exactly when the container was sent", us.loc)
-    for c in P.calls_in(g):
-        if isinstance(c.func, ast.Attribute) and c.func.attr == "_update_send_state":
-            a = [norm(unparse(x)) for x in c.args]
-            ctx.ob("C10.cam-lf", g.short(), "same-decision", "include_lf" in a, "the stamping uses the same include_lf decision", f"{g.module.rel}:{c.lineno}")
-            in_handler = any(k == "handler" for _, k in fl.enclosing_handlers(c))
-            ctx.ob("C10.cam-min", g.short(), "state-only-after-send", not in_handler and any(
-                f.kind == "call" and "self._send_cam(" in f.key for f in fl.state_at(c).facts),
-                "send state is updated only after _send_cam returned", f"{g.module.rel}:{c.lineno}")
+    tlf = const(ctx, CAM, "T_GEN_CAM_LF_MS")
+    lf_now = lf.params[1] if len(lf.params) == 2 else None
+    if lf_now is None:
+        raise AnalysisError("C10: _should_include_lf no longer takes (self, now)")
+    bad = []
+    NOW = 1_000_000
+    for count in (0, 1, 7):
+        for last in (None, NOW - 499, NOW - 500, NOW - 501, NOW - 1, NOW - 5000):
+            got = bool(Exec(P, lf, {lf_now: NOW, "self._cam_count": count, "self._last_lf_time_ms": last}).run())
+            want_ = count == 0 or last is None or NOW - last >= 500
+            if got != want_:
+                bad.append(f"CAM number {count + 1} of the run, LF container last sent {'never' if last is None else str(NOW - last) + ' ms ago'}: "
+                           f"included={got}, the standard says {want_}")
+    ctx.ob("C10.cam-lf", lf.short(), "rule", not bad and tlf == 500,
+           "LF container in the first CAM and whenever >= 500 ms passed since the last CAM carrying it" + ("" if not bad else " - VIOLATED: " + bad[0]), lf.loc)
+    # the decision taken once per CAM: the container is attached exactly when due, and the LF timer restarts on the same decision
+    decisions = calls_to(P, g, lf)
+    if len(decisions) != 1:
+        raise AnalysisError(f"C10: {len(decisions)} evaluations of _should_include_lf in _generate_and_send_cam (confirmed: 1)")
+    dec_x = flg.expand(decisions[0], flg.state_at(decisions[0]))
+    dec_ok = sem.same(dec_x, f"self._should_include_lf({g_now})")
+    dec_f = formula(dec_x)
+    attaches = [n_ for n_ in ast.walk(g.node) if isinstance(n_, ast.Assign) and any(sub_key(t) == "lowFrequencyContainer" for t in n_.targets)]
+    for node in attaches:
+        gs = guards(ctx, flg, node)
+        extra = no_extra_guard(guards(ctx, flg, node, primary=True), [dec_f])
+        ok = dec_ok and implies(relevant(gs, dec_f), dec_f) is True and not extra
+        ctx.ob("C10.cam-lf", g.short(), "attached-iff-due", ok,
+               "the LF container is attached exactly when due" + ("" if not extra else " - but only when " + "; ".join(f_show(x) for x in extra[:3])),
+               f"{g.module.rel}:{node.lineno}")
+    if not attaches:
+        ctx.ob("C10.cam-lf", g.short(), "attached-iff-due", False, "the LF container is no longer attached in _generate_and_send_cam", g.loc)
+    ss = [(m, node, v) for m, node, v in stores(tm, "_last_lf_time_ms") if not is_none(v)]
+    flag = None
+    ok = len(ss) == 1 and ss[0][0] is us and ss[0][2] is not None
+    why = "" if ok else f" - the LF timer is written in {sorted({m.name for m, _, _ in ss}) or 'no method'} (confirmed: once, in _update_send_state after the transmission)"
+    if ok:
+        node, v = ss[0][1], ss[0][2]
+        prim = guards(ctx, flu, node, primary=True)
+        flags = [p_ for p_ in us.params[1:] if prim and implies(prim, formula(expr(p_))) is True and not no_extra_guard(prim, [formula(expr(p_))])]
+        ok = len(flags) == 1 and is_param(flu.expand(v, flu.state_at(node)), us_now)
+        flag = flags[0] if len(flags) == 1 else None
+        why = "" if ok else " - the store is not guarded by exactly one inclusion flag, or does not store the generation time"
+    ctx.ob("C10.cam-lf", us.short(), "stamp-iff-included", ok, "LF timer restarted exactly when the container was sent" + why, us.loc)
+    for c in us_calls:
+        a = flg.expand(bu[flag], stg) if flag is not None and flag in bu else None
+        ctx.ob("C10.cam-lf", g.short(), "same-decision", a is not None and dec_ok and sem.cx(a) == sem.cx(dec_x),
+               f"the flag that restarts the LF timer (parameter `{flag}` of _update_send_state) is bound to `{sem.cx(a) if a is not None else '?'}`; "
+               f"the container was attached on `{sem.cx(dec_x)}`", f"{g.module.rel}:{c.lineno}")
+        in_handler = any(k == "handler" for _, k in flg.enclosing_handlers(c))
+        sc = tm.methods["_send_cam"]
+        sent = any(f.kind == "call" and sc.qual in f.targets for f in stg.facts)
+        ctx.ob("C10.cam-min", g.short(), "state-only-after-send", not in_handler and sent,
+               "send state is updated only after _send_cam returned", f"{g.module.rel}:{c.lineno}")
+
     # ---- generationDeltaTime
     gd = P.cls(f"{CAM}.GenerationDeltaTime").methods["from_timestamp"]
     m = gd.module
@@ -175,80 +654,246 @@ def cam(ctx):
                 repr(to_poly(P, m, v.left)) == repr(to_poly(P, m, ast.parse("utc_timestamp_in_seconds*1000 - ITS_EPOCH_MS + ELAPSED_MILLISECONDS", mode="eval").body))
             ctx.ob("C10.gdt", gd.short(), "formula", ok, "generationDeltaTime = (UTC ms - ITS epoch + leap seconds) mod 65536", f"{m.rel}:{node.lineno}")
     fg = P.cls(f"{CAM}.CooperativeAwarenessMessage").methods["fullfill_gen_delta_time_with_tpv_data"]
-    src = norm(unparse(fg.node))
-    ctx.ob("C10.gdt", fg.short(), "from-report-time", "GenerationDeltaTime.from_timestamp(parser.parse(tpv['time']).timestamp())" in src and
-           "self.cam['cam']['generationDeltaTime']=int(gen_delta_time.msec)" in src, "CAM generationDeltaTime derives from the report's own 'time'", fg.loc)
-    ctx.floor("C10.cam-min", 5)
+    flf = ctx.flows.get(fg)
+    fg_tpv = fg.params[1] if len(fg.params) > 1 else "tpv"
+    ss = [n_ for n_ in ast.walk(fg.node) if isinstance(n_, ast.Assign) and any(sub_key(t) == "generationDeltaTime" for t in n_.targets)]
+    ok = len(ss) == 1 and sem.same(ss[0].targets[0], "self.cam['cam']['generationDeltaTime']") and \
+        sem.same(flf.expand(ss[0].value, flf.state_at(ss[0])), f"int(GenerationDeltaTime.from_timestamp(parser.parse({fg_tpv}['time']).timestamp()).msec)")
+    ctx.ob("C10.gdt", fg.short(), "from-report-time", ok, "CAM generationDeltaTime derives from the report's own 'time'", fg.loc)
+    ctx.floor("C10.cam-min", 10)
     ctx.floor("C10.cam-triggers", 9)
+    ctx.floor("C10.cam-lf", 4)
 
 
+# --------------------------------------------------------------------------------------------
+# VRU awareness service
+# --------------------------------------------------------------------------------------------
 def vam(ctx):
     P = ctx.prog
     tm = P.cls(f"{VAM}.VAMTransmissionManagement")
     tmin, tmax, tlf = const(ctx, VC, "T_GENVAMMIN"), const(ctx, VC, "T_GENVAMMAX"), const(ctx, VC, "T_GENVAM_LFMIN")
     ctx.ob("C10.vam-constants", VC, "values", (tmin, tmax, tlf) == (100, 5000, 2000), f"T_GenVamMin={tmin}, T_GenVamMax={tmax}, T_GenVam_LFMin={tlf} (TS 103 300-3: 100/5000/2000 ms)", "")
     cb = tm.methods["location_service_callback"]
+    sn = tm.methods["send_next_vam"]
     fl = ctx.flows.get(cb)
-    sends = [(m, c) for m in tm.methods.values() for c in P.calls_in(m) if isinstance(c.func, ast.Attribute) and c.func.attr == "send_next_vam"]
+    fln = ctx.flows.get(sn)
+    cb_tpv = cb.params[1] if len(cb.params) == 2 else None
+    sn_vam = sn.params[1] if len(sn.params) == 2 else None
+    if cb_tpv is None or sn_vam is None:
+        raise AnalysisError("C10: location_service_callback(self, tpv) / send_next_vam(self, vam) changed their parameters")
+    sends = [(m, c) for m in tm.methods.values() for c in calls_to(P, m, sn)]
     ctx.ob("C10.vam-min", tm.qual[10:], "single-decision-point", all(m is cb for m, _ in sends), f"VAMs are sent only from location_service_callback", cb.loc)
-    DIFF = "GenerationDeltaTime.from_timestamp(parser.parse(tpv['time']).timestamp())-self.last_vam_generation_delta_time"
     if len(sends) < 4:
         raise AnalysisError(f"C10: {len(sends)} VAM transmission sites (confirmed: 5)")
+    LASTV = "self.last_vam_generation_delta_time"
+    DIFF = expr(f"GenerationDeltaTime.from_timestamp(parser.parse({cb_tpv}['time']).timestamp()) - {LASTV}")
+
+    # ---- the reference of the interval and the first-VAM flag are written together
+    ss = [(m, node, v) for m, node, v in stores(tm, "last_vam_generation_delta_time") if not is_none(v)]
+    ok = len(ss) == 1 and ss[0][0] is sn and ss[0][2] is not None and \
+        sem.same(fln.expand(ss[0][2], fln.state_at(ss[0][1])), f"GenerationDeltaTime(msec={sn_vam}.vam['vam']['generationDeltaTime'])") and \
+        not guards(ctx, fln, ss[0][1], primary=True)
+    ctx.ob("C10.vam-min", sn.short(), "state", ok, "the reference for the interval is the generationDeltaTime of the VAM just sent", sn.loc)
+
+    def same_block(fl_, a, b) -> bool:
+        """Statements a and b are in the same statement list with no statement between them that can leave it."""
+        pa, pb = fl_.parent.get(id(a)), fl_.parent.get(id(b))
+        if pa is None or pa is not pb:
+            return False
+        for fld in ("body", "orelse", "finalbody"):
+            lst = getattr(pa, fld, None)
+            if isinstance(lst, list) and a in lst and b in lst:
+                i, j = sorted((lst.index(a), lst.index(b)))
+                return not any(isinstance(x, (ast.Return, ast.Raise, ast.Break, ast.Continue))
+                               for s_ in lst[i:j + 1] for x in ast.walk(s_))
+        return False
+    flag_stores = stores(tm, "is_first_vam")
+    coherent, why = True, []
+    for m, node, v in ss:                                   # every store of a reference clears the flag
+        fl_ = ctx.flows.get(m)
+        if not any(m2 is m and v2 is not None and P.try_fold(m.module, v2, default="<?>") is False and same_block(fl_, node, n2) for m2, n2, v2 in flag_stores):
+            coherent = False
+            why.append(f"{m.name} stores the reference at line {node.lineno} without clearing is_first_vam next to it")
+    nones = stores(tm, "last_vam_generation_delta_time")
+    for m, node, v in flag_stores:
+        val = P.try_fold(m.module, v, default="<?>") if v is not None else "<?>"
+        fl_ = ctx.flows.get(m)
+        if val is False:                                    # the flag is cleared only where a reference is stored
+            if not any(m2 is m and same_block(fl_, node, n2) for m2, n2, _ in ss):
+                coherent = False
+                why.append(f"{m.name} clears is_first_vam at line {node.lineno} without storing the reference of the interval")
+        elif val is True:                                   # the flag is raised only where the reference is reset
+            if not any(m2 is m and is_none(v2) and same_block(fl_, node, n2) for m2, n2, v2 in nones):
+                coherent = False
+                why.append(f"{m.name} raises is_first_vam at line {node.lineno} without resetting the reference of the interval")
+        else:
+            coherent = False
+            why.append(f"{m.name} stores a non-constant into is_first_vam at line {node.lineno}")
+    ctx.ob("C10.vam-min", tm.qual[10:], "first-flag-coherent", coherent,
+           "is_first_vam is cleared exactly where the reference of the interval is stored and raised only where it is reset, so "
+           "`is_first_vam` implies `no VAM sent yet` (exceptions raised between the two adjacent stores are not considered)"
+           + ("" if coherent else " - VIOLATED: " + "; ".join(why[:3])), sn.loc)
+    none_f = formula(expr(f"{LASTV} is None"))
+    flag_f = formula(expr("self.is_first_vam"))
+    first_goal = ("or", [none_f, flag_f]) if coherent else none_f
+
+    tg_vals = [P.try_fold(m.module, v) if v is not None else None for m, _, v in stores(tm, "t_genvam")]
+    tg_ok = bool(tg_vals) and all(isinstance(v, int) for v in tg_vals)
+    bounds = {"self.t_genvam": min(tg_vals)} if tg_ok else {}
+    cm = "self.clustering_manager"
+    gate_f = ("or", [formula(expr(f"{cm} is None")), formula(expr(f"{cm}.should_transmit_vam()"))])
+    elapsed_f = formula(ast.Compare(left=copy.deepcopy(DIFF), ops=[ast.GtE()], comparators=[expr("self.t_genvam")]))
+    vam_cls = P.cls(f"{VAM}.VAMMessage")
+    fill_tpv, fill_dev = vam_cls.find_method("fullfill_with_tpv_data"), vam_cls.find_method("fullfill_with_device_data")
+    if fill_tpv is None or fill_dev is None:
+        raise AnalysisError("C10: VAMMessage.fullfill_with_tpv_data / fullfill_with_device_data vanished")
+    elapsed_sites, dev_missing = [], []
     for i, (m, c) in enumerate(sends):
+        if m is not cb:
+            continue
         st = fl.state_at(c)
-        conds = {norm(pretty(f.xkey)): f.pol for f in st.facts if f.kind == "cond"}
-        first = conds.get("self.last_vam_generation_delta_timeisNone") is True
-        lb = int_lower_bound(P, cb.module, st.facts, DIFF)
-        if lb is None:
-            # diff >= self.t_genvam with t_genvam a field initialised to a constant >= T_GenVamMin and never lowered
-            if conds.get(f"{DIFF}>=self.t_genvam") is True:
-                stores = [n for mm in tm.methods.values() for n in ast.walk(mm.node) if isinstance(n, ast.Assign) and dotted(n.targets[0]) == "self.t_genvam"]
-                vals = [P.try_fold(mm_.module if False else cb.module, n.value) for n in stores for mm_ in [None]]
-                if vals and all(isinstance(v, int) and v >= tmin for v in vals):
-                    lb = min(vals)
+        loc = f"{cb.module.rel}:{c.lineno}"
+        gs = guards(ctx, fl, c)
+        first = implies(relevant(gs, first_goal), first_goal) is True
+        lb = lower_bound(ctx, fl, st, DIFF, bounds)
         ok = first or (lb is not None and lb >= tmin)
+        below = implies(relevant(gs, elapsed_f), ("not", elapsed_f)) is True
         ctx.ob("C10.vam-min", cb.short(), f"send#{i}:min-interval", ok,
-               "first VAM after activation" if first else (f"sent only when the report is >= {lb} ms after the last VAM" if ok else
-                                                           "a dynamics trigger can send a VAM LESS than T_GenVamMin after the previous one "
-                                                           "(the position/speed/heading tests run on the branch where diff_time < T_GenVam and "
-                                                           "call send_next_vam without a minimum-interval test): at 50 Hz reports VAMs go out 20 ms apart"),
-               f"{cb.module.rel}:{c.lineno}")
-        gate = any((v is False) and k.replace("(", "").replace(")", "") == "self.clustering_managerisnotNoneandnotself.clustering_manager.should_transmit_vam"
-                   for k, v in conds.items())
-        ctx.ob("C10.vam-gate", cb.short(), f"send#{i}:cluster-gate", gate,
-               "no transmission while the clustering state machine suppresses individual VAMs (passive / idle)", f"{cb.module.rel}:{c.lineno}")
-        arg = norm(pretty(unparse(fl.expand(c.keywords[0].value if c.keywords else c.args[0], st))))
-        ctx.ob("C10.gdt", cb.short(), f"send#{i}:built-from-report", arg == "VAMMessage()" or "VAMMessage" in arg,
-               "the VAM sent is the one filled from this report", f"{cb.module.rel}:{c.lineno}")
-    src = norm(unparse(cb.node))
-    ctx.ob("C10.gdt", cb.short(), "filled-from-report", "vam_to_send.fullfill_with_tpv_data(tpv)" in src and "vam_to_send.fullfill_with_device_data(self.device_data_provider)" in src,
-           "the VAM reflects this position report and the device data", cb.loc)
-    # max interval: an elapsed-time trigger exists and uses a bound <= T_GenVamMax
-    ok = f"diff_time>=self.t_genvam" in src
+               "first VAM after activation" if first else (f"sent only when the report is >= {lb} ms after the last VAM" if ok else (
+                   "a dynamics trigger can send a VAM LESS than T_GenVamMin after the previous one "
+                   "(the position/speed/heading tests run on the branch where diff_time < T_GenVam and "
+                   "call send_next_vam without a minimum-interval test): at 50 Hz reports VAMs go out 20 ms apart" if below else
+                   "a VAM can be sent LESS than T_GenVamMin after the previous one: neither a first-VAM test nor a test "
+                   "`report time - time of the last VAM >= T_GenVam (>= T_GenVamMin)` dominates this transmission")),
+               loc)
+        ctx.ob("C10.vam-gate", cb.short(), f"send#{i}:cluster-gate", implies(relevant(gs, gate_f), gate_f) is True,
+               "no transmission while the clustering state machine suppresses individual VAMs (passive / idle)", loc)
+        # the VAM handed over is the one built in this callback and filled from this report
+        b = bind(sn, c)
+        a = b.get(sn_vam)
+        ok = isinstance(a, ast.Name)
+        if ok:
+            ds = fl.reaching(a.id, st)
+            ok = len(ds) == 1 and isinstance(ds[0].value, ast.Call) and any(
+                isinstance(t, ClassInfo) and t.qual == vam_cls.qual for t in P.call_targets(cb, ds[0].value, count=False))
+
+            def filled(method, argsrc):
+                for f in st.facts:
+                    if f.kind == "call" and method.qual in f.targets and isinstance(f.node.func, ast.Attribute) and \
+                            isinstance(f.node.func.value, ast.Name) and f.node.func.value.id == a.id and \
+                            fl.state_at(f.node).defs.get(a.id) == st.defs.get(a.id):
+                        bb = bind(method, f.node)
+                        if len(bb) == 1 and sem.same(fl.expand(list(bb.values())[0], fl.state_at(f.node)), argsrc):
+                            return True
+                return False
+            ok = ok and filled(fill_tpv, cb_tpv)
+            if not filled(fill_dev, "self.device_data_provider"):
+                dev_missing.append(f"line {c.lineno}")
+        else:
+            dev_missing.append(f"line {c.lineno}")
+        ctx.ob("C10.gdt", cb.short(), f"send#{i}:built-from-report", ok,
+               "the VAM sent is the one filled from this report", loc)
+        if not first and implies(relevant(gs, elapsed_f), elapsed_f) is True:
+            expected = [gate_f, ("not", none_f), ("not", flag_f), elapsed_f]
+            if not no_extra_guard(guards(ctx, fl, c, primary=True), expected):
+                elapsed_sites.append(c.lineno)
+    ctx.ob("C10.gdt", cb.short(), "filled-from-report", not dev_missing,
+           "the VAM reflects this position report and the device data" + ("" if not dev_missing else " - device data not filled in before the transmission at " + ", ".join(dev_missing)), cb.loc)
+    # max interval: an elapsed-time trigger exists, depends on nothing else, and uses a bound <= T_GenVamMax
+    ok = bool(elapsed_sites) and tg_ok and max(tg_vals) <= tmax
     ctx.ob("C10.vam-max", cb.short(), "elapsed-trigger", ok, "a report arriving T_GenVam (<= T_GenVamMax) after the last VAM triggers a VAM", cb.loc)
-    # LF container
+
+    # ---- LF container: the guard of the attachment, interpreted on representatives (first VAM / 2 s boundary / cluster operation)
     lf = tm.methods["_attach_lf_container_if_due"]
-    src = norm(unparse(lf.node))
-    ok = "lf_due=self.is_first_vamorself.last_lf_vam_timeisNoneor(now-self.last_lf_vam_time)*1000>=vam_constants.T_GENVAM_LFMINorhas_cluster_op" in src
-    ctx.ob("C10.vam-lf", lf.short(), "rule", ok, "LF container in the first VAM, after >= 2 s, or with a cluster operation container", lf.loc)
     fl2 = ctx.flows.get(lf)
-    for node in ast.walk(lf.node):
-        if isinstance(node, ast.Assign) and dotted(node.targets[0]) == "self.last_lf_vam_time":
-            conds = {norm(pretty(f.key)): f.pol for f in fl2.state_at(node).facts if f.kind == "cond"}
-            ctx.ob("C10.vam-lf", lf.short(), "stamp-iff-attached", conds.get("lf_due") is True, "the LF timer restarts exactly when the container is attached", f"{lf.module.rel}:{node.lineno}")
-    sn = tm.methods["send_next_vam"]
-    src = norm(unparse(sn.node))
-    ctx.ob("C10.vam-lf", sn.short(), "applied", "self._attach_lf_container_if_due(vam)" in src, "every VAM passes the LF rule", sn.loc)
-    ctx.ob("C10.vam-min", sn.short(), "state", "self.last_vam_generation_delta_time=GenerationDeltaTime(msec=vam.vam['vam']['generationDeltaTime'])" in src
-           and "self.is_first_vam=False" in src, "the reference for the interval is the generationDeltaTime of the VAM just sent", sn.loc)
+    lf_vam = lf.params[1] if len(lf.params) == 2 else None
+    if lf_vam is None:
+        raise AnalysisError("C10: _attach_lf_container_if_due(self, vam) changed its parameters")
+    attaches = [n_ for n_ in ast.walk(lf.node) if isinstance(n_, ast.Assign) and any(sub_key(t) == "vruLowFrequencyContainer" for t in n_.targets)]
+    stamps = [(node, v) for m, node, v in stores(tm, "last_lf_vam_time") if m is lf and not is_none(v)]
+    others = [m.name for m, node, v in stores(tm, "last_lf_vam_time") if m is not lf and not is_none(v)]
+    NOWS = 1_700_000_000.0
+
+    def block_head(node):
+        """First statement of the statement list `node` is in, when nothing between the two can leave the list: `node`
+        runs exactly when that statement does, and the tests that lead there have not yet been overwritten."""
+        par = fl2.parent.get(id(node))
+        for fld in ("body", "orelse", "finalbody"):
+            lst = getattr(par, fld, None)
+            if isinstance(lst, list) and node in lst:
+                k = lst.index(node)
+                if not any(isinstance(x, (ast.Return, ast.Raise, ast.Break, ast.Continue)) for s_ in lst[:k] for x in ast.walk(s_)):
+                    return lst[0]
+        return node
+
+    def decided(node):
+        """Truth of the guards in front of `node` on the representatives -> list of (case, bool); None if undecidable."""
+        st = fl2.state_at(block_head(node))
+        conds = [(fold_consts(P, lf.module, f.xnode, set(st.defs)), f.pol) for f in st.facts if f.kind == "cond" and f.xnode is not f.node]
+        out = []
+        for is_first in (True, False):
+            for last in (None, NOWS - 1.5, NOWS - 2.0, NOWS - 2.5, NOWS - 0.001, NOWS - 60.0):
+                for has_op in (False, True):
+                    params = {"vruHighFrequencyContainer": {}}
+                    if has_op:
+                        params["vruClusterOperationContainer"] = {}
+                    env = {"self.is_first_vam": is_first, "self.last_lf_vam_time": last, f"{lf_vam}.vam": {"vam": {"vamParameters": params}}}
+                    try:
+                        val = all(bool(Exec(P, lf, dict(env), clock=NOWS).ev(n_)) == pol for n_, pol in conds)
+                    except AnalysisError as e:
+                        return None, str(e)
+                    want_ = is_first or last is None or (NOWS - last) * 1000 >= tlf or has_op
+                    out.append(((is_first, None if last is None else round(NOWS - last, 3), has_op), val, want_))
+        return out, ""
+    ok, why = len(attaches) == 1, ""
+    att_table = None
+    if ok:
+        att_table, err = decided(attaches[0])
+        if att_table is None:
+            ok, why = False, f" - the guard of the attachment cannot be evaluated ({err})"
+        else:
+            bad = [(c, v, w) for c, v, w in att_table if v != w]
+            ok = not bad
+            if bad:
+                c, v, w = bad[0]
+                why = (f" - VIOLATED: first VAM={c[0]}, LF container last sent {'never' if c[1] is None else str(c[1]) + ' s ago'}, "
+                       f"cluster operation container present={c[2]}: attached={v}, the standard says {w}")
+    ctx.ob("C10.vam-lf", lf.short(), "rule", ok, "LF container in the first VAM, after >= 2 s, or with a cluster operation container" + why, lf.loc)
+    for node, v in stamps:
+        tab, err = decided(node)
+        now_x = fl2.expand(v, fl2.state_at(node))
+        clock = isinstance(now_x, ast.Call) and isinstance(now_x.func, ast.Attribute) and now_x.func.attr == "time" and not now_x.args
+        ok = tab is not None and att_table is not None and [x[1] for x in tab] == [x[1] for x in att_table] and clock and not others
+        ctx.ob("C10.vam-lf", lf.short(), "stamp-iff-attached", ok, "the LF timer restarts exactly when the container is attached", f"{lf.module.rel}:{node.lineno}")
+    if not stamps:
+        ctx.ob("C10.vam-lf", lf.short(), "stamp-iff-attached", False, "the LF timer is no longer restarted where the container is attached", lf.loc)
+    # every VAM passes the LF rule: the helper has certainly been called on the VAM before it is encoded
+    encs = [c for c in P.calls_in(sn) if isinstance(c.func, ast.Attribute) and c.func.attr == "encode" and dotted(c.func.value) == "self.vam_coder"]
+    ok = bool(encs)
+    for c in encs:
+        st = fln.state_at(c)
+        hit = False
+        for f in st.facts:
+            if f.kind == "call" and lf.qual in f.targets:
+                bb = bind(lf, f.node)
+                hit = hit or (lf_vam in bb and sem.same(fln.expand(bb[lf_vam], fln.state_at(f.node)), sn_vam))
+        enc_arg = fln.expand(c.args[0], st) if c.args else None
+        ok = ok and hit and enc_arg is not None and sem.same(enc_arg, f"{sn_vam}.vam")
+    ctx.ob("C10.vam-lf", sn.short(), "applied", ok, "every VAM passes the LF rule (on every path, before it is encoded)", sn.loc)
+    ctx.floor("C10.vam-min", 8)
+    ctx.floor("C10.vam-gate", 5)
+    ctx.floor("C10.vam-lf", 3)
 
 
 def run(ctx):
     ctx.explanation = (
-        "Guard rules (K1) on every generation / transmission site, bounds rules on every store to T_GenCam, must-call on all "
-        "exits (finally) for re-arming, paired rules for the low-frequency container, formula identity for "
-        "generationDeltaTime. Each decided clause is a necessary condition of the timing bounds of C10; the bounds themselves "
-        "(intervals over trajectories under a timer) are statements about runs and are declined.")
+        "Guard rules (K1) on every generation / transmission site, decided as propositional implications over canonical "
+        "condition atoms (truth tables, locals expanded, constants folded) including 'no extra guard' for the exactly-when "
+        "clauses; arguments bound to callee parameters; bounds rules on every store to T_GenCam, the dynamics thresholds, "
+        "the LF rules evaluated by interpreting the syntax trees on representatives of the threshold cells (K10); must-call "
+        "on all exits (finally) for re-arming and for the VAM LF rule; paired rules for the low-frequency container; formula "
+        "identity for generationDeltaTime. Each decided clause is a necessary condition of the timing bounds of C10; the "
+        "bounds themselves (intervals over trajectories under a timer) are statements about runs and are declined.")
     ctx.declined = ["T_GenCamMin <= interval <= T_GenCamMax + check period over trajectories (run property)",
                     "'at the first check at which ...' as a timing statement", "VAM intervals over report streams",
                     "wall-clock use of time.time() for the VAM LF timer", "unit consistency of the VAM 4 m position trigger"]
